@@ -300,7 +300,9 @@ fn iter_event<T: Label>(name: &str, h: usize, w: &Window<T>, k: u64, rev: bool) 
 }
 
 fn record_type<T: Label>(rng: &mut Rng, tw: &mut TraceWriter, programs: u64, steps: u64) {
-	const MAXP: u64 = PeriodType::MAX as u64;
+	#[allow(non_snake_case)]
+	let MAXP: u64 = maxp();
+	let safe = safe_only();
 	for _ in 0..programs {
 		tw.ev(json!({"ev":"reset","type":T::ty()}));
 		let mut pr: Prog<T> = Prog { ws: Vec::new(), next_label: 1 };
@@ -310,7 +312,7 @@ fn record_type<T: Label>(rng: &mut Rng, tw: &mut TraceWriter, programs: u64, ste
 			1 => MAXP - 1,
 			2 => MAXP - 2,
 			3 => rng.below(4),
-			4 => MAXP, // must panic in a debug build
+			4 if !safe => MAXP, // must panic in a debug build
 			_ => rng.below(MAXP.min(40)),
 		};
 		let r = catch(|| Window::new(n as PeriodType, T::mk(0)));
@@ -324,7 +326,13 @@ fn record_type<T: Label>(rng: &mut Rng, tw: &mut TraceWriter, programs: u64, ste
 			let h = *rng.pick(&live);
 			let new_h = pr.ws.len();
 			let n = pr.ws[h].as_ref().unwrap().len() as u64;
-			let op = rng.below(100);
+			let mut op = rng.below(100);
+			if safe {
+				// C19: leave out the calls on which the safe build panics (empty-window push/newest/oldest/index)
+				if n == 0 && (op < 50 || (60..=66).contains(&op)) {
+					op = 67;
+				}
+			}
 			if op < 40 {
 				let x = pr.next_label;
 				pr.next_label += 1;
@@ -352,7 +360,10 @@ fn record_type<T: Label>(rng: &mut Rng, tw: &mut TraceWriter, programs: u64, ste
 					tw.ev(json!({"ev":"get","h":h,"i":i,"y":lab(catch(|| w.get(i as PeriodType)))}));
 				}
 				60..=66 => {
-					let i = some_i(rng);
+					let mut i = some_i(rng);
+					if safe && i >= n {
+						i = n - 1; // an out-of-range Index panics in the safe build
+					}
 					tw.ev(json!({"ev":"index","h":h,"i":i,"y":lab(catch(|| Some(&w[i as PeriodType])))}));
 				}
 				67 => tw.ev(json!({"ev":"len","h":h,"y":w.len()})),
@@ -376,7 +387,7 @@ fn record_type<T: Label>(rng: &mut Rng, tw: &mut TraceWriter, programs: u64, ste
 					let (buf, index): (Vec<T>, u64) = if rng.chance(0.6) {
 						(w.as_slice().to_vec(), ser_index(w))
 					} else {
-						let len = *rng.pick(&[0, 1, 2, 3, MAXP - 2, MAXP - 1, MAXP, MAXP + 1]);
+						let len = *rng.pick(&[0, 1, 2, 3, MAXP - 2, MAXP - 1, if safe { MAXP - 1 } else { MAXP }, if safe { 5 } else { MAXP + 1 }]);
 						let index = *rng.pick(&[0, 1, len.saturating_sub(1), len, len + 1, MAXP]);
 						((0..len).map(|j| T::mk(1000 + j)).collect(), index.min(MAXP))
 					};
@@ -397,7 +408,7 @@ fn record_type<T: Label>(rng: &mut Rng, tw: &mut TraceWriter, programs: u64, ste
 					pr.ws.push(r.ok().and_then(Result::ok));
 				}
 				89..=92 => {
-					let len = *rng.pick(&[0, 1, 2, 3, 5, MAXP - 2, MAXP - 1, MAXP, MAXP + 1, MAXP + 45]);
+					let len = *rng.pick(&[0, 1, 2, 3, 5, MAXP - 2, MAXP - 1, if safe { 4 } else { MAXP }, if safe { 6 } else { MAXP + 1 }, if safe { 7 } else { MAXP + 45 }]);
 					let index = *rng.pick(&[0, 0, 1, len.saturating_sub(1), len, len + 1, MAXP - 1, MAXP]);
 					let buf: Vec<T> = (0..len).map(|j| T::mk(2000 + j)).collect();
 					let doc = json!({"buf": buf, "index": index.min(MAXP)});
@@ -416,7 +427,7 @@ fn record_type<T: Label>(rng: &mut Rng, tw: &mut TraceWriter, programs: u64, ste
 					pr.ws.push(Some(c));
 				}
 				96..=97 => {
-					let len = *rng.pick(&[0, 1, 4, MAXP - 1, MAXP]);
+					let len = *rng.pick(&[0, 1, 4, MAXP - 1, if safe { 3 } else { MAXP }]);
 					let buf: Vec<T> = (0..len).map(|j| T::mk(3000 + j)).collect();
 					let b = ids(&buf);
 					let r = catch(|| Window::from(buf));
